@@ -98,50 +98,49 @@ def portValue (tbl : List (String × Nat)) (t : Str) : Except Err Int :=
 
 def inPorts (lo hi : Int) (v : Int) : Bool := lo ≤ v && v ≤ hi
 
-/-- the ladder of `L4Object.__init__` up to the assignment of `port_list` -/
+/-- the `if "neq " in … elif "eq " in …` ladder of `L4Object.__init__` up to the assignment of
+`port_list`; `spec` is the stripped `port_spec`, `tbl` the service-name table of the protocol -/
+def ladder (tbl : List (String × Nat)) (spec : Str) : Except Err PortOp :=
+  let ws := words spec
+  let last := ws.getLast?.getD []
+  if hasSub "neq ".toList spec then do
+    let v ← portValue tbl last
+    if inPorts 1 65535 v then .ok (.neq v.toNat) else .error .requirementFailure
+  else if hasSub "eq ".toList spec then do
+    let v ← portValue tbl last
+    if inPorts 1 65535 v then .ok (.eq v.toNat) else .error .requirementFailure
+  else if spec ≠ [] ∧ spec.all (fun c => !isSpace c) then do
+    -- re.search(r"^\S+$", spec)
+    let v ← portValue tbl spec
+    if inPorts 1 65535 v then .ok (.eq v.toNat) else .error .requirementFailure
+  else if hasSub "range ".toList spec then
+    match ws with
+    | _ :: a :: rest => do
+      let lo ← portValue tbl a
+      match rest with
+      | b :: _ => do
+        let hi ← portValue tbl b
+        if lo > hi then .error .requirementFailure
+        else if 1 ≤ lo ∧ hi ≤ 65535 then .ok (.range lo.toNat hi.toNat)
+        else .error .requirementFailure
+      | [] => .error .indexError
+    | _ => .error .indexError
+  else if hasSub "lt ".toList spec then do
+    let v ← portValue tbl last
+    if inPorts 2 65535 v then .ok (.lt v.toNat) else .error .requirementFailure
+  else if hasSub "gt ".toList spec then do
+    let v ← portValue tbl last
+    if inPorts 1 65534 v then .ok (.gt v.toNat) else .error .requirementFailure
+  else
+    -- the source has one more `elif "neq " in …` here; it repeats the first test and is dead
+    .error .notImplemented
+
+/-- protocol / syntax selection in front of the ladder -/
 def parseSpec (protocol syn : Str) (portSpec : Str) : Except Err PortOp :=
-  let spec := strip portSpec
-  if syn ≠ "asa".toList then .error .notImplemented else
-  let tbl? : Option (List (String × Nat)) :=
-    if protocol = "tcp".toList then some Gen.asaTcpPorts
-    else if protocol = "udp".toList then some Gen.asaUdpPorts
-    else none
-  match tbl? with
-  | none => .error .notImplemented
-  | some tbl =>
-    let ws := words spec
-    let last := ws.getLast?.getD []
-    if hasSub "neq ".toList spec then do
-      let v ← portValue tbl last
-      if inPorts 1 65535 v then .ok (.neq v.toNat) else .error .requirementFailure
-    else if hasSub "eq ".toList spec then do
-      let v ← portValue tbl last
-      if inPorts 1 65535 v then .ok (.eq v.toNat) else .error .requirementFailure
-    else if spec ≠ [] ∧ spec.all (fun c => !isSpace c) then do
-      -- re.search(r"^\S+$", spec)
-      let v ← portValue tbl spec
-      if inPorts 1 65535 v then .ok (.eq v.toNat) else .error .requirementFailure
-    else if hasSub "range ".toList spec then
-      match ws with
-      | _ :: a :: rest => do
-        let lo ← portValue tbl a
-        match rest with
-        | b :: _ => do
-          let hi ← portValue tbl b
-          if lo > hi then .error .requirementFailure
-          else if 1 ≤ lo ∧ hi ≤ 65535 then .ok (.range lo.toNat hi.toNat)
-          else .error .requirementFailure
-        | [] => .error .indexError
-      | _ => .error .indexError
-    else if hasSub "lt ".toList spec then do
-      let v ← portValue tbl last
-      if inPorts 2 65535 v then .ok (.lt v.toNat) else .error .requirementFailure
-    else if hasSub "gt ".toList spec then do
-      let v ← portValue tbl last
-      if inPorts 1 65534 v then .ok (.gt v.toNat) else .error .requirementFailure
-    else
-      -- the source has one more `elif "neq " in …` here; it repeats the first test and is dead
-      .error .notImplemented
+  if syn ≠ "asa".toList then .error .notImplemented
+  else if protocol = "tcp".toList then ladder Gen.asaTcpPorts (strip portSpec)
+  else if protocol = "udp".toList then ladder Gen.asaUdpPorts (strip portSpec)
+  else .error .notImplemented
 
 /-- the value assigned to `port_list` -/
 def portList : PortOp → List Nat
